@@ -191,6 +191,7 @@ type stopIndex struct {
 	log      []Ev
 	prestart map[string]map[int]int // actor -> incarnation -> seq of prestart-enter
 	stopInit map[string][]int       // actor -> seqs of events that initiate a stop/restart of that actor
+	stopCall map[string][]int       // actor -> seqs of stop-call events (stops proper, not restarts or failures)
 }
 
 func indexLog(log []Ev) *stopIndex {
@@ -203,6 +204,12 @@ func indexLog(log []Ev) *stopIndex {
 			}
 			ix.prestart[e.Actor][e.Inc] = e.Seq
 		case "stop-call", "restart-call", "panic-sent", "sysstop-call":
+			if e.Kind == "stop-call" || e.Kind == "panic-sent" && e.Aux == 1 { // a stop, or a failure answered by the stop directive
+				if ix.stopCall == nil {
+					ix.stopCall = map[string][]int{}
+				}
+				ix.stopCall[e.Actor] = append(ix.stopCall[e.Actor], e.Seq)
+			}
 			ix.stopInit[e.Actor] = append(ix.stopInit[e.Actor], e.Seq)
 		}
 	}
@@ -240,6 +247,13 @@ func (ix *stopIndex) raceKind(x, d *stNode, dInc, p int) string {
 	// a re-incarnation (Restart / restart directive) of d, of x or of an actor between them before p
 	if dInc > 1 {
 		return "descendant-restart-racing-stop"
+	}
+	// d hangs below an actor that was re-initialised by a Restart while another goroutine was
+	// stopping that same actor: the death watch deletes the restarted actor's tree node when it
+	// handles the Terminated of the interleaved stop, so the actor runs unregistered and nothing
+	// spawned under it is registered or reachable by a stop (recorded defect, not the spawn race)
+	if ix.underRestartedDuringItsStop(d, p) {
+		return "under-actor-restarted-during-its-stop"
 	}
 	for q := d.parent; q != nil; q = q.parent {
 		for inc, ps := range ix.prestart[q.name] {
@@ -282,6 +296,35 @@ func (ix *stopIndex) raceKind(x, d *stNode, dInc, p int) string {
 		}
 	}
 	return "settled-descendant"
+}
+
+// restartedDuringItsStop: a new incarnation of q started before p, and a stop call aimed at q
+// or an ancestor of q was issued during the life of the previous incarnation's restart, i.e.
+// between the previous PreStart and the new one (the Restart and the stop overlapped).
+func (ix *stopIndex) restartedDuringItsStop(q *stNode, p int) bool {
+	for inc, ps := range ix.prestart[q.name] {
+		if inc < 2 || ps >= p {
+			continue
+		}
+		prev := ix.prestart[q.name][inc-1]
+		for a := q; a != nil; a = a.parent {
+			for _, sc := range ix.stopCall[a.name] {
+				if sc > prev && sc < ps {
+					return true
+				}
+			}
+		}
+	}
+	return false
+}
+
+func (ix *stopIndex) underRestartedDuringItsStop(d *stNode, p int) bool {
+	for q := d.parent; q != nil; q = q.parent {
+		if ix.restartedDuringItsStop(q, p) {
+			return true
+		}
+	}
+	return false
 }
 
 // escaped: q (or an ancestor of q) was spawned by a call that overlapped the stop of its parent.
@@ -704,7 +747,7 @@ func init() {
 	c09Recorded["api-call-panics|ActorSystem.Kill"] = true
 	c09Recorded["actor-system-stopped-itself|after-stop-directive"] = true
 	c09Recorded["live-actor-with-dead-parent|suspended:overlapping-stop-of-descendant"] = true
-	for _, k := range []string{"spawn-racing-stop", "descendant-restart-racing-stop", "overlapping-stop-of-descendant", "under-escaped-actor"} {
+	for _, k := range []string{"spawn-racing-stop", "descendant-restart-racing-stop", "overlapping-stop-of-descendant", "under-escaped-actor", "under-actor-restarted-during-its-stop"} {
 		c09Recorded["ancestor-poststop-before-descendant|"+k] = true
 		c09Recorded["live-actor-with-dead-parent|"+k] = true
 		c09Recorded["live-actor-parent-not-registered|"+k] = true
@@ -798,6 +841,9 @@ func c09Finish(c *Ctx) {
 			if live(n) && n.parent != nil {
 				pf := st.final[n.parent.name]
 				kind := ix.raceKind(n.parent, n, n.probe.Inc, lastPostStop(log, n.parent.name))
+				if live(n.parent) && n.probe.Inc == 1 && ix.underRestartedDuringItsStop(n, len(log)) {
+					kind = "under-actor-restarted-during-its-stop" // the parent lives on: restarts up to now count
+				}
 				if f.Suspended && !f.Running && (kind == "overlapping-stop-of-descendant" || kind == "settled-descendant") {
 					// failed, waiting for a verdict that its stopped parent will never give (for the
 					// kinds that are consequences of another recorded race the flag adds nothing)
@@ -814,14 +860,27 @@ func c09Finish(c *Ctx) {
 				}
 			}
 			if live(n) {
-				var want []string
+				// compared over the children whose spawn returned nil: a child whose SpawnChild
+				// returned an error has no PID the harness could ask (it can still exist: a
+				// Restart of an ancestor snapshots it, stops it - SpawnChild then reports ErrDead -
+				// and starts it again; that is a spawn-contract matter, not tree consistency)
+				var want, got []string
+				okKid := map[string]bool{}
 				for _, k := range n.kids {
+					okKid[k.name] = k.ok()
 					if kf := st.final[k.name]; kf != nil && kf.Running {
 						want = append(want, k.name)
 					}
 				}
+				for _, g := range f.Children {
+					if isKid, known := okKid[g]; known && !isKid {
+						c.Probe("child-of-failed-spawn-is-running")
+						continue
+					}
+					got = append(got, g)
+				}
 				sort.Strings(want)
-				if strings.Join(want, ",") != strings.Join(f.Children, ",") {
+				if strings.Join(want, ",") != strings.Join(got, ",") {
 					kind := "quiescence"
 					inGot := map[string]bool{}
 					for _, g := range f.Children {
@@ -830,6 +889,9 @@ func c09Finish(c *Ctx) {
 					for _, k := range n.kids {
 						if kf := st.final[k.name]; kf != nil && kf.Running && !inGot[k.name] {
 							kind = ix.raceKind(n, k, k.probe.Inc, lastPostStop(log, n.name))
+							if k.probe.Inc == 1 && ix.underRestartedDuringItsStop(k, len(log)) {
+								kind = "under-actor-restarted-during-its-stop"
+							}
 							break
 						}
 					}
